@@ -855,6 +855,12 @@ func runC10(env *lib.Env, rep *lib.Report) {
 	}
 
 	// (8) CREATE TABLE with 1..4 columns of every type in every order; CREATE DATABASE; USE; SHOW
+	// counts beyond 32 bits (the statement keeps them in an int)
+	for _, n := range []int{2147483648, 3000000000, int(^uint(0) >> 1)} {
+		los = append(los, lo{[]any{"LIMIT", n}, sql.LimitOffsetClause{LimitActive: true, Limit: n}})
+		los = append(los, lo{[]any{"OFFSET", n}, sql.LimitOffsetClause{OffsetActive: true, Offset: n}})
+		los = append(los, lo{[]any{"LIMIT", n, "OFFSET", n}, sql.LimitOffsetClause{LimitActive: true, Limit: n, OffsetActive: true, Offset: n}})
+	}
 	type ct struct {
 		words []rtok
 		dt    any
@@ -865,6 +871,7 @@ func runC10(env *lib.Env, rep *lib.Report) {
 		{[]rtok{{text: "VARCHAR", kind: 'k'}, {text: "(", kind: 'p'}, {text: "255", kind: 'n'}, {text: ")", kind: 'p'}}, sql.CharacterStringType{Len: 255, Type: sql.T_VARCHAR}},
 		{[]rtok{{text: "BOOLEAN", kind: 'k'}}, sql.BooleanType{}},
 		{[]rtok{{text: "VARCHAR", kind: 'k'}, {text: "(", kind: 'p'}, {text: "1", kind: 'n'}, {text: ")", kind: 'p'}}, sql.CharacterStringType{Len: 1, Type: sql.T_VARCHAR}},
+		{[]rtok{{text: "VARCHAR", kind: 'k'}, {text: "(", kind: 'p'}, {text: "3000000000", kind: 'n'}, {text: ")", kind: 'p'}}, sql.CharacterStringType{Len: 3000000000, Type: sql.T_VARCHAR}},
 	}
 	var rect func(cols []int)
 	rect = func(cols []int) {
